@@ -9,6 +9,7 @@ Result lines:
   r tid rc|BLK|SKIP val|- | released t:rc:val .. | launched k .. | W<i>=present,full,status,mem,[EFQ],[FEQ],[FFQ],[FFWQ] ..
   e w:tid .. ; k:runs:ordinal ..
 """
+import collections
 import importlib.util
 import itertools
 import json
@@ -56,12 +57,12 @@ def parse_r(line):
         t, rc, v = it.split(":")
         d["released"].append((int(t), int(rc), None if v == "-" else int(v)))
     d["launched"] = [int(x) for x in head[2].split()]
-    ws = []
+    ws = {}                                  # word index -> observed state (many-words scripts print only a few words)
     for it in head[3].split():
-        body = it.split("=", 1)[1]
+        name, body = it.split("=", 1)
         f = body.split(",")
-        ws.append({"present": int(f[0]), "full": int(f[1]), "status": int(f[2]), "mem": int(f[3]),
-                   "q": [parse_list(f[4]), parse_list(f[5]), parse_list(f[6]), parse_list(f[7])]})
+        ws[int(name[1:])] = {"present": int(f[0]), "full": int(f[1]), "status": int(f[2]), "mem": int(f[3]),
+                             "q": [parse_list(f[4]), parse_list(f[5]), parse_list(f[6]), parse_list(f[7])]}
     d["words"] = ws
     return d
 
@@ -184,7 +185,7 @@ def oracle_script(sc, out):
         if tid in pending:
             return ("C01", "task %d issued a call while blocked" % tid, i)
         prev_cells = list(cells)
-        ops_on = {w: [] for w in range(nw)}        # word -> list of items that completed in this step
+        ops_on = collections.defaultdict(list)     # word -> list of items that completed in this step
         first_on = {}
         # ---- the caller
         if f[0] == "o":
@@ -245,7 +246,7 @@ def oracle_script(sc, out):
                 _, k2, s2, d2 = pending.pop(k)
                 ops_on[w2].append((k2, s2, d2, None))
         # ---- per word: one total order explains the step; nothing enabled stays blocked; nobody lost
-        for w in range(nw):
+        for w in sorted(r["words"]):
             ws = r["words"][w]
             cfin = (ws["full"], ws["mem"])
             if ws["status"] != ws["full"]:
@@ -297,7 +298,7 @@ def oracle_script(sc, out):
                 if miss:
                     return ("C06", "precondition task %d started although word(s) %s were never full since its spawn" % (k, sorted(miss)), i)
             elif P["launched"] is None:
-                where = [w for w in range(nw) for q in r["words"][w]["q"] for x in q if x == "%dn" % k]
+                where = [w for w in sorted(r["words"]) for q in r["words"][w]["q"] for x in q if x == "%dn" % k]
                 if len(where) != 1:
                     return ("C06", "precondition task %d is parked on %d words (must be exactly one while not started)" % (k, len(where)), i)
                 if where[0] not in P["words"]:
@@ -307,10 +308,10 @@ def oracle_script(sc, out):
     if e:
         a, b = e[0]["raw"][1:].split(";")
         enum = sorted(a.split())
-        lastw = ([r for r in results if "words" in r] or [{"words": [{"q": [[], [], [], []]}] * nw}])[-1]["words"]
+        lastw = ([r for r in results if "words" in r] or [{"words": {}}])[-1]["words"]
         want = sorted(["%d:%d" % (p[0], t) for t, p in pending.items()] +
                       ["%d:%d" % (w, k) for k in pre if pre[k]["launched"] is None
-                       for w in range(nw) for q in lastw[w]["q"] for x in q if x == "%dn" % k])
+                       for w in sorted(lastw) for q in lastw[w]["q"] for x in q if x == "%dn" % k])
         if enum != want:
             return ("C02", "qthread_feb_callback enumerates %s, pending calls are %s" % (enum, want), len(steps))
         for it in b.split():
@@ -363,7 +364,7 @@ def gen_script(rng, model, profile, allow_ret1=True):
     init = [rng.range(1, 9) for _ in range(nw)]
     lines = ["S %d %d %d %d %s" % (nt, ne, npre, nw, " ".join(map(str, init)))]
     mout = [model.send(lines[0])]
-    words = [{"present": 0, "full": 1, "q": [[], [], [], []]} for _ in range(nw)]
+    words = {i: {"present": 0, "full": 1, "q": [[], [], [], []]} for i in range(nw)}
     nextval = [10]
     spawned = 0
     retwords = {}
@@ -374,7 +375,7 @@ def gen_script(rng, model, profile, allow_ret1=True):
         return nextval[0]
 
     def blocked_now():
-        return set(int(x.rstrip("n")) for w in words for q in w["q"] for x in q)
+        return set(int(x.rstrip("n")) for w in words.values() for q in w["q"] for x in q)
 
     for _ in range(nsteps):
         blk = blocked_now()
@@ -392,16 +393,27 @@ def gen_script(rng, model, profile, allow_ret1=True):
             pcs = [rng.below(nw) for _ in range(n)]
             if rng.chance(1, 3) and retwords:           # chain on another task's return word
                 pcs[rng.below(n)] = rng.choice(list(retwords.values()))
-            retmode = rng.weighted([(0, 5), (2, 3)] + ([(1, 3)] if allow_ret1 else []))
+            if rng.chance(1, 2):
+                # aim at the argument-list boundary: only the LAST listed word is empty (it is the first one the walk looks at)
+                empties = [i for i in range(nw) if not words[i]["full"]]
+                fulls = [i for i in range(nw) if words[i]["full"]]
+                if empties and (fulls or n == 1):
+                    pcs = [rng.choice(fulls) for _ in range(n - 1)] + [rng.choice(empties)]
+                    stats["spawn:last-word-empty"] = stats.get("spawn:last-word-empty", 0) + 1
+            # entry point x calling convention: 0-2 array form of fork_precond / _to / _simple, 3-5 their varargs form,
+            # 6/7 fork_copyargs_precond varargs/array, 8 qthread_spawn with the precondition array
+            variant = rng.below(9)
+            allowed = [0] if variant in (2, 5) else ([0, 2] if variant in (6, 7) else ([0, 2, 1] if allow_ret1 else [0, 2]))
+            retmode = rng.choice(allowed + [0])
             # return words are distinct per task: the order in which launched tasks run is the scheduler's (C08),
             # their return writes must therefore commute
             freew = [x for x in range(nw) if x not in retwords.values()]
             if retmode and not freew:
                 retmode = 0
-            variant = rng.weighted([(0, 4), (1, 2), (3, 3)] + ([(2, 2)] if retmode == 0 else []))
             retw = rng.choice(freew) if retmode else 0
             if retmode:
                 retwords[k] = retw
+            stats["spawn:variant%d:n%d" % (variant, n)] = stats.get("spawn:variant%d:n%d" % (variant, n), 0) + 1
             ln = "p %d %d %d %d %d %d %d %s" % (tid, k, variant, retmode, retw, val(), n, " ".join(map(str, pcs)))
         else:
             w = rng.below(nw) if not rng.chance(P.get("hot", 0), 100) else 0
@@ -442,8 +454,42 @@ def gen_script(rng, model, profile, allow_ret1=True):
 def fixed_script(model, lines):
     f = lines[0].split()
     nw = int(f[4])
-    return {"lines": lines, "model": run_fixed(model, lines), "nwords": nw, "init": [int(x) for x in f[5:5 + nw]], "stats": {},
+    init = [int(x) for x in f[5:5 + nw]]
+    return {"lines": lines, "model": run_fixed(model, lines), "nwords": nw, "init": init + [0] * (nw - len(init)), "stats": {},
             "ntasks": int(f[1]), "next": int(f[2]), "npre": int(f[3])}
+
+
+def gen_many(rng, model, n):
+    """many words at once (hashmap.c: growth/shrink of a stripe's record table): one task empties n consecutive words,
+    every word is probed, a part is filled and emptied again across the growth thresholds, everything is filled and probed"""
+    lines = ["S 2 0 0 %d" % n]
+    stats = {}
+    val = [100]
+
+    def op(t, w, name, a1=0):
+        val[0] += 1
+        lines.append("o %d %d %s %d %d" % (t, w, name, a1, val[0]))
+        stats["many:" + name] = stats.get("many:" + name, 0) + 1
+
+    order = list(range(n)) if rng.chance(1, 2) else rng.shuffle(list(range(n)))
+    for w in order:                                     # phase 1: n records exist at the same time
+        op(0, w, rng.weighted([("empty", 6), ("purge_to", 2), ("readFE", 2), ("purge", 1), ("readFE_nb", 1)]))
+    for w in range(n):                                  # phase 2: every word must still be empty
+        op(1, w, rng.weighted([("status", 4), ("readFF_nb", 3), ("readFE_nb", 2), ("readXX", 1)]))
+    refill = [w for w in range(n) if rng.chance(1, 3)]
+    for w in refill:                                    # phase 3: records leave the table ...
+        op(0, w, rng.weighted([("writeEF_nb", 3), ("fill", 2), ("writeF", 2), ("writeEF", 2), ("unlock", 1)]))
+    for w in refill:                                    # ... and come back
+        op(1, w, rng.weighted([("status", 2), ("readFE", 3), ("empty", 2), ("readFE_nb", 2)]))
+    for w in rng.shuffle(list(range(n)))[: n // 2]:
+        op(0, w, "status")
+    for w in range(n):                                  # phase 4: everything full again, then probe
+        op(0, w, rng.weighted([("writeEF", 3), ("writeEF_nb", 3), ("fill", 2), ("writeF_const", 1)]))
+    for w in rng.shuffle(list(range(n)))[: n // 2]:
+        op(1, w, rng.weighted([("status", 2), ("readFF_nb", 2), ("writeEF_nb", 2)]))
+    lines.append("E")
+    return {"lines": lines, "model": run_fixed(model, lines), "nwords": n, "init": [0] * n, "stats": stats,
+            "ntasks": 2, "next": 0, "npre": 0}
 
 
 PROFILES = {
@@ -509,7 +555,7 @@ def compare(sc, impl):
 
 
 # ---------------------------------------------------------------- one property run
-def run_property(ctx, prop, profiles, corpus_props, nscripts, configs, trivial_rule):
+def run_property(ctx, prop, profiles, corpus_props, nscripts, configs, trivial_rule, many=None):
     rng = ctx.rng
     if os.environ.get("VERIF_FEB_CONFIGS"):          # experiments only: "2x2,1x1"
         configs = [tuple(int(x) for x in c.split("x")) for c in os.environ["VERIF_FEB_CONFIGS"].split(",")]
@@ -543,6 +589,12 @@ def run_property(ctx, prop, profiles, corpus_props, nscripts, configs, trivial_r
                 sc = gen_script(r2, model, PROFILES[pname], allow_ret1=(ns * nwk == 1))
                 sc["name"] = "gen:%s:%d" % (pname, k)
                 scripts.append(sc)
+            if many and ns * nwk == 1:
+                # (count, n): with one worker the runtime uses 4 record tables, each growing at 332, 665, 1331 ... records
+                for k in range(many[0]):
+                    sc = gen_many(r2, model, many[1] + r2.below(many[1] // 8 + 1))
+                    sc["name"] = "gen:many:%d" % k
+                    scripts.append(sc)
             impl = run_impl(exe, scripts, ns, nwk)
             for sc, io in zip(scripts, impl):
                 io = io or []
